@@ -247,6 +247,12 @@ func (s *scen) step() {
 	r.mu.Lock()
 	started := append([]string(nil), r.started...)
 	cbOpen := append([]int(nil), r.cbOpen...)
+	var noteHandlers []string // running notification handlers that are listening on their gate
+	for _, p := range started {
+		if r.notes[p] {
+			noteHandlers = append(noteHandlers, p)
+		}
+	}
 	r.mu.Unlock()
 	acts := []act{
 		{f.wFeedCall + f.wFeedNote, func() { r.feedMsgs(false, []member{s.validMember()}, false) }},
@@ -315,6 +321,17 @@ func (s *scen) step() {
 				r.gate(p, gateMsg{res: pick(g, []string{`{"a":`, "1 2", "garbage", `{"x":1}{"y":2}`, `[1,`, "\x01"})})
 			} else {
 				r.gate(p, gateMsg{res: pick(g, []string{"true", `{"r":[1,2]}`, "null", `"ok"`, "0"})})
+			}
+		}})
+	}
+	if len(noteHandlers) > 0 && f.wPush > 0 {
+		// a notification handler pushes to the client itself, with its own context, and awaits the outcome
+		acts = append(acts, act{f.wPush, func() {
+			p := pick(g, noteHandlers)
+			if g.chance(1, 4) {
+				r.handlerPush(p, false, "pn", pick(g, []string{"", `[7]`}))
+			} else {
+				r.handlerPush(p, true, "pc", pick(g, []string{"", `{"h":1}`}))
 			}
 		}})
 	}
